@@ -139,6 +139,163 @@ def _methods(cls: ast.ClassDef) -> dict[str, ast.FunctionDef]:
     return {n.name: n for n in cls.body if isinstance(n, ast.FunctionDef)}
 
 
+# ----------------------------------------------------------------------------- call normalisation / helper inlining
+def _plain_methods(cls: ast.ClassDef) -> dict[str, ast.FunctionDef | ast.AsyncFunctionDef]:
+    """Instance methods (first parameter `self`, no static/class-method decorator) of a class."""
+    out = {}
+    for n in cls.body:
+        if isinstance(n, (ast.FunctionDef, ast.AsyncFunctionDef)) and n.args.args and n.args.args[0].arg == "self" \
+                and not any(_src(d).split(".")[-1] in ("staticmethod", "classmethod", "property") for d in n.decorator_list):
+            out[n.name] = n
+    return out
+
+
+class _KwToPos(ast.NodeTransformer):
+    """`self.m(a, y=c, x=b)` -> `self.m(a, b, c)` using the signature of `m` in the same class.  Done only when the
+    keywords fill the next positional parameters without a gap and the order of evaluation of the arguments cannot
+    matter (same order, or no argument contains a call / await / walrus).  Anything else is left as written."""
+
+    def __init__(self, sigs: dict[str, list[str]]):
+        self.sigs = sigs
+
+    def visit_Call(self, node: ast.Call) -> ast.AST:  # noqa: N802
+        self.generic_visit(node)
+        f = node.func
+        if not (isinstance(f, ast.Attribute) and isinstance(f.value, ast.Name) and f.value.id == "self"
+                and f.attr in self.sigs and node.keywords):
+            return node
+        if any(k.arg is None for k in node.keywords) or any(isinstance(a, ast.Starred) for a in node.args):
+            return node
+        rest = self.sigs[f.attr][len(node.args):]
+        kw = {k.arg: k.value for k in node.keywords}
+        if len(kw) != len(node.keywords) or list(rest[:len(kw)]) != [p for p in rest if p in kw] or not set(kw) <= set(rest):
+            return node
+        if [k.arg for k in node.keywords] != list(rest[:len(kw)]) and \
+                any(_contains(v, (ast.Call, ast.Await, ast.NamedExpr)) for v in kw.values()):
+            return node
+        node.args = list(node.args) + [kw[p] for p in rest[:len(kw)]]
+        node.keywords = []
+        return node
+
+
+def _normalise_calls(tree: ast.Module) -> ast.Module:
+    for cls in tree.body:
+        if isinstance(cls, ast.ClassDef):
+            sigs = {name: [a.arg for a in fn.args.args[1:]] for name, fn in _plain_methods(cls).items()
+                    if not fn.args.posonlyargs and not fn.args.vararg}
+            _KwToPos(sigs).visit(cls)
+    return tree
+
+
+class _Rename(ast.NodeTransformer):
+    def __init__(self, m: dict[str, str]):
+        self.m = m
+
+    def visit_Name(self, node: ast.Name) -> ast.AST:  # noqa: N802
+        if node.id in self.m:
+            node.id = self.m[node.id]
+        return node
+
+    def visit_arg(self, node: ast.arg) -> ast.AST:  # noqa: N802
+        if node.arg in self.m:
+            node.arg = self.m[node.arg]
+        return node
+
+
+class _Inliner:
+    """Replace `x = self._h(a, …)` / `x: T = self._h(…)` / `self._h(…)` / `return self._h(…)` by the body of the
+    synchronous same-class method `_h` (parameters bound to the arguments, locals renamed apart; when `_h` ends in
+    `return <local>` that local simply takes the name `x`).  Only helpers whose body is straight-line up to ONE final
+    `return` (or none) are inlined; every other call is left as it is, for the analyses to accept or refuse."""
+
+    def __init__(self, cls: ast.ClassDef, keep: set[str]):
+        self.methods = {k: v for k, v in _plain_methods(cls).items() if isinstance(v, ast.FunctionDef) and k not in keep}
+        self.n = 0
+
+    def inlinable(self, call: ast.expr | None) -> ast.FunctionDef | None:
+        if not (isinstance(call, ast.Call) and isinstance(call.func, ast.Attribute) and isinstance(call.func.value, ast.Name)
+                and call.func.value.id == "self" and call.func.attr in self.methods and not call.keywords
+                and not any(isinstance(a, ast.Starred) for a in call.args)):
+            return None
+        fn = self.methods[call.func.attr]
+        a = fn.args
+        if a.vararg or a.kwarg or a.kwonlyargs or a.posonlyargs or len(a.args) - 1 != len(call.args) or fn.decorator_list:
+            return None
+        body = [s for s in fn.body if not (isinstance(s, ast.Expr) and isinstance(s.value, ast.Constant))]
+        inner = body[:-1] if body and isinstance(body[-1], ast.Return) else body
+        if _contains(inner, (ast.Return, ast.Yield, ast.YieldFrom, ast.FunctionDef, ast.AsyncFunctionDef, ast.ClassDef,
+                             ast.Global, ast.Nonlocal, ast.Await)):
+            return None
+        return fn
+
+    def expand(self, fn: ast.FunctionDef, call: ast.Call, target: ast.expr | None, ann: ast.expr | None,
+               is_return: bool) -> list[ast.stmt]:
+        self.n += 1
+        body = copy.deepcopy([s for s in fn.body if not (isinstance(s, ast.Expr) and isinstance(s.value, ast.Constant))])
+        params = [x.arg for x in fn.args.args[1:]]
+        bound = set(params)
+        for s in body:
+            for x in ast.walk(s):
+                if isinstance(x, ast.Name) and isinstance(x.ctx, (ast.Store, ast.Del)):
+                    bound.add(x.id)
+                elif isinstance(x, ast.arg):
+                    bound.add(x.arg)
+        ren = {b: f"_{fn.name.strip('_')}{self.n}_{b}" for b in bound if b != "self"}
+        ret = body[-1] if body and isinstance(body[-1], ast.Return) else None
+        if ret is not None:
+            body = body[:-1]
+        arg_names = {x.id for a in call.args for x in ast.walk(a) if isinstance(x, ast.Name)}
+        direct = (ret is not None and isinstance(ret.value, ast.Name) and ret.value.id in bound and ret.value.id not in params
+                  and isinstance(target, ast.Name) and target.id not in arg_names)
+        if direct:
+            ren[ret.value.id] = target.id
+        out: list[ast.stmt] = [ast.Assign(targets=[ast.Name(id=ren[pn], ctx=ast.Store())], value=copy.deepcopy(a))
+                               for pn, a in zip(params, call.args)]
+        out += [_Rename(ren).visit(s) for s in body]
+        val = _Rename(ren).visit(copy.deepcopy(ret.value)) if ret is not None and ret.value is not None else ast.Constant(value=None)
+        if is_return:
+            out.append(ast.Return(value=val))
+        elif target is not None and not direct:
+            out.append(ast.AnnAssign(target=target, annotation=ann, value=val, simple=1) if ann is not None
+                       else ast.Assign(targets=[target], value=val))
+        for s in out:
+            ast.fix_missing_locations(s)
+        return out
+
+    def stmts(self, body: list[ast.stmt], depth: int = 0) -> list[ast.stmt]:
+        out: list[ast.stmt] = []
+        for s in body:
+            call, target, ann, is_ret = None, None, None, False
+            if isinstance(s, ast.Assign) and len(s.targets) == 1 and isinstance(s.targets[0], ast.Name):
+                call, target = s.value, s.targets[0]
+            elif isinstance(s, ast.AnnAssign) and isinstance(s.target, ast.Name) and s.value is not None:
+                call, target, ann = s.value, s.target, s.annotation
+            elif isinstance(s, ast.Expr):
+                call = s.value
+            elif isinstance(s, ast.Return):
+                call, is_ret = s.value, True
+            fn = self.inlinable(call) if depth < 4 else None
+            if fn is not None:
+                out.extend(self.stmts(self.expand(fn, call, target, ann, is_ret), depth + 1))
+                continue
+            for field in ("body", "orelse", "finalbody"):
+                sub = getattr(s, field, None)
+                if isinstance(sub, list) and sub and isinstance(sub[0], ast.stmt):
+                    setattr(s, field, self.stmts(sub, depth))
+            if isinstance(s, ast.Try):
+                for h in s.handlers:
+                    h.body = self.stmts(h.body, depth)
+            out.append(s)
+        return out
+
+
+def _inlined(cls: ast.ClassDef, name: str, keep: set[str] = frozenset()) -> ast.FunctionDef | ast.AsyncFunctionDef:
+    """The method `name` of `cls` with its straight-line private helpers inlined (a copy; `cls` is not changed)."""
+    fn = copy.deepcopy(_find_method(cls, name))
+    fn.body = _Inliner(cls, set(keep) | {name}).stmts(fn.body)
+    return fn
+
+
 # ----------------------------------------------------------------------------- C14
 class _Path:
     def __init__(self) -> None:
@@ -649,7 +806,7 @@ def _single_assignments(fn: ast.AST) -> dict[str, ast.expr]:
 def _battery(tree: ast.Module) -> tuple[dict[str, str], dict[str, str]]:
     cls = _find_class(tree, "BatteryManager")
     # ---- _parse_result
-    pr = _find_method(cls, "_parse_result")
+    pr = _inlined(cls, "_parse_result")
     loops = [n for n in pr.body if isinstance(n, ast.For)]
     if len(loops) != 1 or not isinstance(loops[0].target, ast.Tuple) or len(loops[0].target.elts) != 2:
         raise Unsupported("_parse_result: `for inverter_id, aws in tasks.items()` expected")
@@ -684,7 +841,7 @@ def _battery(tree: ast.Module) -> tuple[dict[str, str], dict[str, str]]:
     if inits.get(power_var) not in ("0.0", "0") or inits.get(set_var) != "set()":
         raise Unsupported("_parse_result: accumulators must start at 0.0 / set()")
     # ---- _distribute_power
-    dp = _find_method(cls, "_distribute_power")
+    dp = _inlined(cls, "_distribute_power")
     request, dist = dp.args.args[1].arg, dp.args.args[2].arg
     inline = _single_assignments(dp)
     failed_name = None
@@ -719,12 +876,12 @@ def _pv(tree: ast.Module) -> tuple[dict[str, str], dict[str, str]]:
     # target power: initialised in __init__, must not be assigned anywhere else (the model has no such state)
     targets = [n for n in ast.walk(cls) if isinstance(n, (ast.Assign, ast.AugAssign, ast.AnnAssign))
                and any(_src(t) == "self._target_power" for t in (n.targets if isinstance(n, ast.Assign) else [n.target]))]
-    uses_target = any(_src(n) == "self._target_power" for n in ast.walk(_find_method(cls, "_set_api_power")))
+    uses_target = any(_src(n) == "self._target_power" for n in ast.walk(_inlined(cls, "_set_api_power")))
     if uses_target and (len(targets) != 1 or not isinstance(targets[0], ast.Assign)):
         raise Unsupported("PVManager._target_power is assigned outside __init__: not modelled")
     target_init = Expr({}).tr(targets[0].value) if targets and isinstance(targets[0], ast.Assign) else "(0 : Rat)"
     # ---- _set_api_power
-    sp = _find_method(cls, "_set_api_power")
+    sp = _inlined(cls, "_set_api_power")
     request, allocs, remaining = (a.arg for a in sp.args.args[1:4])
     pf, ok_ = _kwargs_of(sp, "PartialFailure"), _kwargs_of(sp, "Success")
     if len(pf) != 1 or len(ok_) != 1:
@@ -784,7 +941,7 @@ def _pv(tree: ast.Module) -> tuple[dict[str, str], dict[str, str]]:
         "pvOkExcess": ex.tr(ok_[0]["excess_power"]),
     }
     # ---- distribute_power: the water-filling loop
-    dp = _find_method(cls, "distribute_power")
+    dp = _inlined(cls, "distribute_power")
     req = dp.args.args[1].arg
     rem_names = [s.targets[0].id for s in dp.body if isinstance(s, ast.Assign) and isinstance(s.targets[0], ast.Name)
                  and _src(s.value) == f"{req}.power"]
@@ -873,7 +1030,7 @@ def _table(name: str, t: dict[str, str]) -> str:
 
 
 def generate(repo: pathlib.Path) -> str:
-    trees = [ast.parse((repo / s).read_text()) for s in SOURCES]
+    trees = [_normalise_calls(ast.parse((repo / s).read_text())) for s in SOURCES]
     pol = _policy(trees[0])
     bat_h, bat_e = _battery(trees[1])
     pv_h, pv_e = _pv(trees[2])
